@@ -35,15 +35,23 @@ R.contract("Node._connect_to_peer", params={"self": "Node", "peer": "Peer"},
            ghost_out={"c": ("conn", "PeerConnection"), "s": ("peer_socket", "Socket")},
            requires=[("generators", "seq_ok(self.end_to_end_seq)"),
                      ("identity-encodable", "encodable(self.origin_host) and encodable(self.realm_name)")],
+           assume_pre=[("peers-table-keyed-by-node-name",
+                        "peer.node_name != '' and peer.node_name in self.peers and self.peers[peer.node_name] == peer")],
+           entry_facts=["entry_closed(self.connections)"],
            hints=[],
            ensures=[("a-dial-that-leaves-no-registered-connection-releases-socket-and-workers",
                      "implies(old(is_none(peer.connection)) and old(len(peer.ip_addresses)) > 0 and "
                      "not (c.ident in self.connections and self.connections[c.ident] == c), "
                      "s.closed and workers_stopped(c))"),
+                    ("a-dialled-connection-that-stays-registered-is-linked-to-its-peer",
+                     "implies(old(is_none(peer.connection)) and old(len(peer.ip_addresses)) > 0 and "
+                     "c.ident in self.connections and self.connections[c.ident] == c, "
+                     "not is_none(peer.connection) and some(peer.connection) == c)"),
                     ("connected-peer-is-not-dialled-again",
                      "implies(old(not is_none(peer.connection)), unchanged(self.connections) and "
                      "peer.connection == old(peer.connection))")],
            raises=[Raise("RuntimeError", "True", "may")],
+           ghost_ensures_exc={"RuntimeError": ["self.g_dialled == old(self.g_dialled) + [peer]"]},
            ghost_modifies=["self.g_dialled", "*MsgQueue.g_put"],
            ghost_ensures=["self.g_dialled == old(self.g_dialled) + [peer]"],
            modifies=["peer.connection", "peer.disconnect_reason", "peer.last_connect", "peer.last_disconnect",
@@ -54,6 +62,7 @@ R.contract("Node._connect_to_peer", params={"self": "Node", "peer": "Peer"},
                      "*PeerConnection.state"],
            props=["C19", "C12", "C13"])
 
+R.assume("ASSUMED invariant (established by Node.add_peer, not verified): self.peers is keyed by Peer.node_name")
 R.contracts["Node._connect_to_peer"].ghost_bind = {"Node.close_connection_socket": {"gs": "peer_socket"}}
 
 # per-transaction tables
@@ -70,3 +79,8 @@ R.contracts["Node._receive_message"].ensures.append(
     Clause("a-request-answered-by-the-node-leaves-no-origin-record",
            "implies(is_req(msg) and len(out(conn)) == old(len(out(conn))) + 1, "
            "not (mkey(msg) in self._origin_waiting_answer))"))
+
+# with the verified dial contract loaded, the reconnect loop must establish its preconditions
+R.contracts["Node._reconnect_peers"].requires += [
+    Clause("generators", "seq_ok(self.end_to_end_seq)"),
+    Clause("identity-encodable", "encodable(self.origin_host) and encodable(self.realm_name)")]
